@@ -115,6 +115,23 @@ CHECKS = {
         note='MIDO_BACKEND is read regardless of use_environ. set_backend rebinding is correspondence-only.',
         technique='Lean 4 proof (decision logic, simp/case analysis) over a hand model; exhaustive differential correspondence over the configuration grid',
         design='5 C20'),
+    'C19': dict(
+        text='Theorems: binary and plain-text SYX round trips for every list of valid messages (any sysex payload length, non-sysex '
+             'messages dropped), no sysex => empty file => empty list, every \\s character is accepted as separator, non-hex text is '
+             'ValueError (and never another error), built on the parser concatenation theorem C06. Correspondence on real files.',
+        note='Files are written on a POSIX system (text mode writes LF).',
+        technique='Lean 4 proof (corollary of the parser theorems + hex layout lemmas, functional induction) over a hand model; differential correspondence on real files',
+        design='5 C19'),
+    'C11': dict(
+        text='Sequential state-machine model of BasePort/BaseInput/BaseOutput/EchoPort/MultiPort against an environment script; theorems: '
+             'close idempotent, device released exactly once after the 32 reset messages iff autoreset, after close send is ValueError and '
+             'NO operation history reaches the device again, iteration over a closed port yields exactly the queued messages and ends '
+             'normally then poll is None, poll never sleeps, blocking receive returns after exactly r sleep rounds when the first message '
+             'arrives in round r, MultiPort non-blocking receive total and blocking receive prompt. Correspondence on real port classes with a '
+             'scripted device double: every self-close position x arrivals x queued messages exhaustively, random histories, MultiPort.',
+        note='Real elapsed time is not measured ("as soon as" = no additional sleep round). __del__ only via explicit close. random.shuffle replaced by identity for comparison.',
+        technique='Lean 4 proof (state machine, induction over fuel/queue/rounds) over a hand model; differential correspondence on op histories with environment scripts',
+        design='5 C11'),
 }
 
 PENDING = ['C02', 'C03', 'C04', 'C05', 'C06', 'C07', 'C08', 'C09', 'C10', 'C11', 'C12', 'C13', 'C14', 'C15',
